@@ -187,11 +187,11 @@ Definition replicate (a : atoms) (r : nat * nat * nat) : option atoms :=
     Some (set_cell body (Some (scale_rows c r)))
   end.
 
-(* ---- __getitem__ (after fix D8): no terms, no extra fields, no pair table *)
+(* ---- __getitem__ (after fixes D8, D15): type tables kept, no terms, no extra fields *)
 Definition getitem (a : atoms) (idxs : list nat) : atoms :=
   mk_atoms (np_take (0, 0, 0)%Z (a_pos a) idxs) (np_take 0 (a_typ a) idxs) (np_take 0%Z (a_chg a) idxs)
            (np_take 0%Z (a_grp a) idxs) (map (fun _ => []) idxs) []
-           (t_el a) (t_mass a) (t_lab a) []
+           (t_el a) (t_mass a) (t_lab a) (t_pair a)
            empty_kind empty_kind empty_kind empty_kind (a_cell a).
 
 (* ---- resolution of type ids ("meaning") *)
